@@ -370,7 +370,14 @@ def run_check(modname, prop, tier, seed):
 
     # 2. generated search
     specs = mod.shards(tier)
-    jobs = [(modname, spec, derive_seed(seed, prop, i)) for i, spec in enumerate(specs)]
+    # a shard's seed depends on what the shard is, not on its position in the list, so that adding
+    # a shard does not reshuffle the others
+    seen = {}
+    jobs = []
+    for spec in specs:
+        key = json.dumps(spec, sort_keys=True, default=str)
+        seen[key] = seen.get(key, 0) + 1
+        jobs.append((modname, spec, derive_seed(seed, prop, key, seen[key])))
     results = []
     if jobs:
         nproc = min(NPROC, len(jobs))
